@@ -245,11 +245,24 @@ class ScriptPolicy:
         return out
 
 
+def finite_result(r):
+    """a returned dictionary with a NaN/inf weight or a malformed key is canonicalised as a crash"""
+    if r[0] != "ok":
+        return r
+    try:
+        for k, v in r[1].items():
+            if not all(int(i) == i and i >= 0 for i in k) or not math.isfinite(float(v[0])) or v[1] not in (WeightType.EXACT, WeightType.SAMPLED):
+                return ("crashed", f"malformed entry {k!r}: {v!r}"[:200])
+    except Exception as e:  # noqa: BLE001
+        return ("crashed", f"malformed result: {type(e).__name__}: {e}"[:200])
+    return r
+
+
 def run_weights(probs, N, policy):
     stub = ChoiceStub(policy)
     arrs = arrays(probs)
     with patched_choice(stub):
-        r = call_canon(W._generate_qpd_weights, arrs, num_float(N))
+        r = finite_result(call_canon(W._generate_qpd_weights, arrs, num_float(N)))
     return r, stub
 
 
@@ -733,7 +746,7 @@ def run_public(bases, N, policy, form="float"):
             r = call_canon(generate_qpd_weights, bases)
         else:
             r = call_canon(generate_qpd_weights, bases, num_arg(N, form))
-    return r, stub
+    return finite_result(r), stub
 
 
 def gen_public(rng, tier, w, n):
